@@ -28,7 +28,7 @@ KEY_POOLS = {
     "strings": ["it's", 'dq"uote', "back\\slash", "a\\x41", "tab\there", "new\nline", "sp ace", "\u00e9\u221a", "{br}", "[0]", "",
                 "a.b", "'", "\\", "\\n", "%s", "k" * 40, "c['a']", "\x7f", "#", "a=b", "\r"],
     "exotic": ["\x01np:3", "\x01np:4", "\x01np:5", "\x01enum:6", "\x01enum:7", "\x01enum:8", -1, 100, 2 ** 70, "\x01f:0.5",
-               "\x01f:1e+300", "\x01tup:[1, 2]", "\x01tup:[\"a\", 1]", "\x01tup:[]", "\x01none", "\x01bool:1", "\x01np8:9",
+               "\x01f:1e+300", "\x01f:nan", "\x01tup:[1, 2]", "\x01tup:[\"a\", 1]", "\x01tup:[]", "\x01none", "\x01bool:1", "\x01np8:9",
                "it's", "back\\slash"],
 }
 
@@ -238,6 +238,11 @@ def gen_history(rng, profile="mixed", nops=None, nofun=False, attrdict="auto", k
             if rng.random() < 0.3 and not any(o[0] == "clone" for o in ops):
                 ops.append(["clone"])          # a clone taken now (possibly inside a frozen window) is kept alive to the end
             continue
+        if rng.random() < 0.03:
+            # a container offered under a label that is already taken is refused; the manager goes on unchanged
+            lab = rng.choice(["c", "g", "f"])
+            ops.append(["dupref", lab, rng.choice(["ref", "refattr"])])
+            continue
         if rng.random() < 0.03 and profile not in ("flat", "assign_flat", "fault"):
             # another function object is put at a function location: every definition calling it is re-evaluated
             # (only the location "sum": its callers never read a container that holds their own target, whichever function
@@ -396,6 +401,26 @@ def wide_case(rng, width, second=None):
     return {"store": [["c", {"kind": "dict", "items": items}]], "ops": ops}
 
 
+def fanin_case(rng, width=40, rounds=5):
+    """one location defined again and again by WIDE expressions (sums over `width` locations, a different group each round),
+    each replaced by a plain value before the next one is built: the expression objects of earlier rounds are freed, later
+    ones are likely to be allocated where those were.  After every definition one input of the current group (the task
+    must run) and one of the previous group (nothing may run) are assigned."""
+    R = lambda k: ["c", ["i", k]]
+    items = [["t", 0]] + [[f"v{r}_{i}", (r + i) % 5] for r in range(rounds) for i in range(width)]
+    ops = []
+    for r in range(rounds):
+        e = ["ref", R(f"v{r}_0")]
+        for i in range(1, width):
+            e = ["bin", "+", e, ["ref", R(f"v{r}_{i}")]]
+        ops.append(["set", R("t"), ["expr", e], rng.choice(ROUTES)])
+        ops.append(["set", R(f"v{r}_{rng.randrange(width)}"), ["plain", rng.randint(-9, 9)], "sv"])
+        if r:
+            ops.append(["set", R(f"v{r - 1}_{rng.randrange(width)}"), ["plain", rng.randint(-9, 9)], "sv"])
+        ops.append(["set", R("t"), ["plain", rng.randint(-9, 9)], "sv"])
+    return {"store": [["c", {"kind": "dict", "items": items}]], "ops": ops}
+
+
 # ------------------------------------------------------------------ emission
 class Emit:
     def __init__(self):
@@ -529,7 +554,7 @@ def load_orders_ok(case, obs_list):
     return True
 
 
-OBSERVER_OPS = ("clone", "useclone", "freshcheck", "picklecheck")      # oracle-only operations, not part of the model's history
+OBSERVER_OPS = ("clone", "useclone", "freshcheck", "picklecheck", "dupref")      # oracle-only operations, not part of the model's history
 
 
 def emit_case(case, obs_list):
